@@ -188,16 +188,34 @@ def r04_terms(ctx, repo):
 
 
 # -- guards -------------------------------------------------------------------
-def _guard_of(fn):
-    """First `if` of the kernel whose body leaves the function."""
+def _guards_of(fn):
+    """The support guards of a kernel: the `if`s at the head of the body
+    (between plain assignments) whose bodies leave the function.  Several
+    consecutive guards act as the disjunction of their tests."""
+    out = []
     for s in fn.body:
         if isinstance(s, ast.If) and s.body and isinstance(
-                s.body[-1], (ast.Return, ast.Raise)):
-            return s
+                s.body[-1], (ast.Return, ast.Raise)) and not s.orelse:
+            out.append(s)
+            continue
         if isinstance(s, (ast.Assign, ast.Expr)):
+            if out and not isinstance(s, ast.Expr):
+                # assignments after the first guard may still precede a
+                # further guard; stop at the first one that is not followed
+                # by another guard
+                rest = fn.body[fn.body.index(s) + 1:]
+                if not any(isinstance(x, ast.If) and x.body and isinstance(
+                        x.body[-1], (ast.Return, ast.Raise))
+                        and not x.orelse for x in rest[:3]):
+                    break
             continue
         break
-    return None
+    return out
+
+
+def _guard_of(fn):
+    gs = _guards_of(fn)
+    return gs[0] if gs else None
 
 
 def _scale_names(fn):
@@ -279,8 +297,14 @@ def r04_1(ctx, repo):
             fn = repo.method(cls, m)
             construct = '%s.%s' % (cls, m)
             where = repo.loc(fn, cls, m)
-            g = _guard_of(fn)
-            gtest = expand_pred(repo, cls, g.test) if g is not None else None
+            gs = [x for x in _guards_of(fn)
+                  if isinstance(x.body[-1], ast.Return)]
+            g = gs[0] if gs else None
+            gtest = None
+            if gs:
+                tests = [expand_pred(repo, cls, x.test) for x in gs]
+                gtest = tests[0] if len(tests) == 1 else ast.BoolOp(
+                    op=ast.Or(), values=tests)
             scales = _scale_names(fn)
             if not scales:
                 ctx.error(rule, '%s: scale parameters not recognised '
@@ -357,11 +381,32 @@ def r04_1(ctx, repo):
                                                      n_mech])}
             for sname, sym in zip(scales, env['parameters']):
                 env[sname] = sym
-            try:
-                r = lf._block(g.body, env, fn, 0, cls)
-            except Unsupported as e:
-                ctx.error(rule, '%s: guard body: %s' % (construct, e))
+            # plain assignments ahead of the guards (hoisted `n_obs = ...`)
+            for st in fn.body:
+                if st in gs:
+                    continue
+                if st.lineno > gs[-1].lineno:
+                    break
+                if isinstance(st, ast.Assign):
+                    try:
+                        lf._stmt(st, env, fn, 0, cls)
+                    except Unsupported:
+                        pass
+            badbody = False
+            r = None
+            for gx in gs:
+                lf.fulls = []
+                try:
+                    r = lf._block(gx.body, dict(env), fn, 0, cls)
+                except Unsupported as e:
+                    ctx.error(rule, '%s: guard body: %s' % (construct, e))
+                    badbody = True
+                    break
+                if gx is not gs[-1] and (r is None or r[0] != 'ret'):
+                    break
+            if badbody:
                 continue
+            g = gx
             ret = g.body[-1]
             if r is None or r[0] != 'ret':
                 ctx.violation(rule, repo.loc(g, cls, m), construct,
